@@ -1,3 +1,4 @@
+import NanoVerif.Props.C08
 import NanoVerif.Props.C10
 import NanoVerif.Props.C11
 import NanoVerif.Props.C12
